@@ -51,7 +51,10 @@ func (g *G) templateStmt() *lang.Node {
 		if !g.builtinFree("append") {
 			return g.defineStmt()
 		}
-		wrap := g.fnDepth == 0 && g.chance(650, "tplInFn")
+		wrap := g.fnDepth == 0 && (g.chance(650, "tplInFn") || g.o.ScopeIndep)
+		if g.o.ScopeIndep && !wrap {
+			return g.defineStmt()
+		}
 		if wrap {
 			name := n("res")
 			g.declare(&vinfo{name: name, t: TArr, elem: TInt})
